@@ -99,6 +99,21 @@ theorem CodesOk.hyp {w : World} (h : CodesOk w.codes) :
     ∀ (wx : World) (hh : Nat) (bytes : List Nat), wx.codes = w.codes → wx.codeOf hh = some bytes →
       bytes.length ≤ ISZ := fun wx hh bytes e hb => CodesOk.codeOf (w := wx) (by rw [e]; exact h) hb
 
+/-- every recorded precompile answer carries a Rust `Bytes` -/
+def PcOk (l : List PcAnswer) : Prop := ∀ p ∈ l, p.out.length ≤ ISZ
+
+/-- the code store and the precompile oracle hold Rust `Bytes` only -/
+def StoreOk (w : World) : Prop := CodesOk w.codes ∧ PcOk w.pcOracle
+
+/-- same code store, same precompile oracle -/
+def StoreEq (w w1 : World) : Prop := w1.codes = w.codes ∧ w1.pcOracle = w.pcOracle
+
+theorem StoreEq.refl (w : World) : StoreEq w w := ⟨rfl, rfl⟩
+theorem StoreEq.trans {a b c : World} (h1 : StoreEq a b) (h2 : StoreEq b c) : StoreEq a c :=
+  ⟨h2.1.trans h1.1, h2.2.trans h1.2⟩
+theorem StoreOk.eq {w w1 : World} (h : StoreOk w) (e : StoreEq w w1) : StoreOk w1 := by
+  unfold StoreOk; rw [e.1, e.2]; exact h
+
 /-- the bytes an action hands to the frame machine: calldata / initcode -/
 def dataLen : Interp.Action → Nat
   | .call i => i.input.length
@@ -127,16 +142,16 @@ structure MF : Prop where
   inB : ∀ (s : Interp.IState) (d : Interp.Done) a s', IInv s →
     (Interp.step s = .pure d ∨ ∃ op k resp, Interp.step s = .host op k ∧ d = k resp) → d = .action a s' →
     dataLen a ≤ s'.mem.buffer.length
-  answerCodes : ∀ he (w w1 : World) op resp, answer he w op = .ok (resp, w1) → w1.codes = w.codes
-  frameCodes : ∀ cfg (w w' : World) a mem fr, makeFrame journalOps cfg w a mem = .ok (fr, w') → w'.codes = w.codes
-  returnCodes : ∀ cfg (top : JFrame) (w w' : World) res res', frameReturn journalOps cfg top w res = .ok (res', w') →
-    CodesOk w.codes → res.output.length ≤ ISZ → CodesOk w'.codes
-  returnRes : ∀ cfg (top : JFrame) (w w' : World) res res', frameReturn journalOps cfg top w res = .ok (res', w') →
-    res'.gasRemaining ≤ res.gasRemaining ∧ res'.output.length ≤ res.output.length
+  answerCodes : ∀ he (w w1 : World) op resp, answer he w op = .ok (resp, w1) → StoreEq w w1
+  frameCodes : ∀ cfg (w w' : World) a mem fr, makeFrame journalOps cfg w a mem = .ok (fr, w') →
+    StoreOk w → dataLen a ≤ ISZ → StoreEq w w'
+  returnOut : ∀ cfg (top : JFrame) (w w' : World) res res', frameReturn journalOps cfg top w res = .ok (res', w') →
+    StoreOk w → res'.gasRemaining ≤ res.gasRemaining ∧ res'.output.length ≤ res.output.length ∧
+      (res.output.length ≤ ISZ → StoreOk w')
   early : ∀ cfg (w w' : World) a mem o, makeFrame journalOps cfg w a mem = .ok (.result o, w') →
-    dataLen a ≤ ISZ → o.gasRemaining ≤ a.gasLimit ∧ o.output.length ≤ ISZ
+    StoreOk w → dataLen a ≤ ISZ → o.gasRemaining ≤ a.gasLimit ∧ o.output.length ≤ ISZ
   frameInit : ∀ cfg (w w' : World) a mem (f : JFrame), makeFrame journalOps cfg w a mem = .ok (.frame f, w') →
-    CodesOk w.codes → dataLen a ≤ ISZ → a.gasLimit < U64 → Revm.Proofs.Interp.EnvOk cfg.spec cfg.env →
+    StoreOk w → dataLen a ≤ ISZ → a.gasLimit < U64 → Revm.Proofs.Interp.EnvOk cfg.spec cfg.env →
     WF mem → mem.buffer.length ≤ 2^62 →
     IInv f.interp ∧ imeas f.interp = a.gasLimit ∧ f.interp.mem = Memory.newContext mem ∧ FKind a f.kind
 
@@ -156,7 +171,7 @@ def SOk : List JFrame → Prop
 structure SI (stack : List JFrame) (w : World) : Prop where
   sok : SOk stack
   gas : msum stack ≤ U64 - 2
-  codes : CodesOk w.codes
+  codes : StoreOk w
 
 /-- the top frame has halted in state `s` with output `out` -/
 structure HT (s : Interp.IState) (k : FrameKind) (rest : List JFrame) (out : List Nat) : Prop where
@@ -168,7 +183,7 @@ structure HT (s : Interp.IState) (k : FrameKind) (rest : List JFrame) (out : Lis
 
 def NInv3 : Next Journal.Checkpoint → Prop
   | .run stack w => stack ≠ [] ∧ LI stack w ∧ SI stack w
-  | .ended top rest r out s w => LI (top :: rest) w ∧ RGood r ∧ HT s top.kind rest out ∧ CodesOk w.codes
+  | .ended top rest r out s w => LI (top :: rest) w ∧ RGood r ∧ HT s top.kind rest out ∧ StoreOk w
   | .done r w => WOk w ∧ RGood r.result
 
 theorem link_ckEq {s x : Interp.IState} {k : FrameKind} {rest : List JFrame} (h : Link s k rest) (hc : CkEq s x) :
@@ -240,7 +255,7 @@ theorem tot3_deliver {kind : FrameKind} {o : Interp.ChildResult} {parent : JFram
     (hk : KindOk kind parent.interp)
     (hlc : parent.interp.mem.lastCheckpoint ≤ rest.length * FB) (hlink : Link parent.interp parent.kind rest)
     (hrest : SOk rest) (gl : Nat) (hg : o.gasRemaining ≤ gl) (hB : imeas parent.interp + gl + msum rest ≤ U64 - 2)
-    (hnf : RGood o.result) (hol : o.output.length ≤ ISZ) (hcodes : CodesOk w.codes) :
+    (hnf : RGood o.result) (hol : o.output.length ≤ ISZ) (hcodes : StoreOk w) :
     Tot3 (deliver kind o parent rest mem w) NInv3 := by
   obtain ⟨hi', hm'⟩ := inv_setMem hp hsh
   have hk' : KindOk kind { parent.interp with mem := mem } := by
@@ -285,7 +300,7 @@ theorem freeCtx_eq {m m' : Memory.SharedMemory} (h : Memory.freeContext m = .ok 
 
 theorem tot3_frameEnd (mf : MF) {cfg : Cfg} {top : JFrame} {rest : List JFrame} {r : Interp.IResult} {out : List Nat}
     {s : Interp.IState} {w : World} (h : LI (top :: rest) w) (hrg : RGood r) (ht : HT s top.kind rest out)
-    (hcodes : CodesOk w.codes) : Tot3 (frameEnd journalOps cfg top rest r out s w) NInv3 := by
+    (hcodes : StoreOk w) : Tot3 (frameEnd journalOps cfg top rest r out s w) NInv3 := by
   obtain ⟨c1, c2, c3⟩ := h.chain
   have hret : Tot3 (frameReturn journalOps cfg top w (resultOf r out s)) (fun p => LI rest p.2) := by
     unfold frameReturn
@@ -315,8 +330,8 @@ theorem tot3_frameEnd (mf : MF) {cfg : Cfg} {top : JFrame} {rest : List JFrame} 
     refine tot3_bind' hret (fun p heq hp => ?_)
     obtain ⟨res, w1⟩ := p
     have hres : RGood res.result := frameReturn_rgood (res := resultOf r out s) hrg heq
-    obtain ⟨g1, g2⟩ := mf.returnRes _ _ _ _ _ _ heq
-    have hc1 := mf.returnCodes _ _ _ _ _ _ heq hcodes ht.out
+    obtain ⟨g1, g2, g3⟩ := mf.returnOut _ _ _ _ _ _ heq hcodes
+    have hc1 := g3 ht.out
     have hgas := ht.gas
     simp only [msum] at hgas
     refine tot3_deliver hp pi hshape ht.link.2 plc plink prest (imeas s) ?_ (by omega) hres ?_ hc1
@@ -361,7 +376,7 @@ theorem tot3_frameAction (mf : MF) {cfg : Cfg} (henv : Revm.Proofs.Interp.EnvOk 
     {rest : List JFrame} {a : Interp.Action} {s : Interp.IState} {w : World} (h : LI (top :: rest) w)
     (hs : IInv s) (hlc : s.mem.lastCheckpoint ≤ rest.length * FB) (hlink : Link s top.kind rest) (hrest : SOk rest)
     (hgas : imeas s + a.gasLimit + msum rest ≤ U64 - 2) (hr : Revm.Proofs.Interp.RetOk a (iclen s.mem))
-    (hd : dataLen a ≤ s.mem.buffer.length) (hlen : rest.length + 1 ≤ CALL_STACK_LIMIT + 1) (hcodes : CodesOk w.codes) :
+    (hd : dataLen a ≤ s.mem.buffer.length) (hlen : rest.length + 1 ≤ CALL_STACK_LIMIT + 1) (hcodes : StoreOk w) :
     Tot3 (frameAction journalOps cfg top rest a s w) NInv3 := by
   unfold frameAction
   have h' := h.updTop s
@@ -378,7 +393,7 @@ theorem tot3_frameAction (mf : MF) {cfg : Cfg} (henv : Revm.Proofs.Interp.EnvOk 
   obtain ⟨fr, w1⟩ := p
   obtain ⟨fo, fa⟩ := hp
   dsimp only at fo fa ⊢
-  have hc1 : CodesOk w1.codes := by rw [mf.frameCodes _ _ _ _ _ _ heq]; exact hcodes
+  have hc1 : StoreOk w1 := hcodes.eq (mf.frameCodes _ _ _ _ _ _ heq hcodes hdl)
   have hli : LI ({ top with interp := s } :: rest) w1 :=
     ⟨fo.ok, h'.chain.mono fo.len, h'.addrs.mono fo.grows⟩
   cases fr with
@@ -401,7 +416,7 @@ theorem tot3_frameAction (mf : MF) {cfg : Cfg} (henv : Revm.Proofs.Interp.EnvOk 
     · show imeas f.interp + (imeas s + msum rest) ≤ U64 - 2
       rw [fm]; omega
   | result o =>
-    obtain ⟨e1, e2⟩ := mf.early _ _ _ _ _ _ heq hdl
+    obtain ⟨e1, e2⟩ := mf.early _ _ _ _ _ _ heq hcodes hdl
     have hk : KindOk (kindOfAction a) s := by
       cases a with
       | call i => exact hr
@@ -478,8 +493,8 @@ theorem tot3_iterate (mf : MF) {cfg : Cfg} (henv : Revm.Proofs.Interp.EnvOk cfg.
       refine tot3_bind' (tot3_of_tot (tot_answer h.ok cfg.he _ hok)) (fun p hans hp => ?_)
       obtain ⟨resp, w1⟩ := p
       have hresp : Revm.Proofs.Interp.RespOk resp :=
-        answer_respOk hans hsi.codes.hyp (fun _ _ _ hl => w_loadCode_codes hl)
-      have hsi1 : SI (top :: rest) w1 := ⟨hsi.sok, hsi.gas, by rw [mf.answerCodes _ _ _ _ _ hans]; exact hsi.codes⟩
+        answer_respOk hans hsi.codes.1.hyp (fun _ _ _ hl => w_loadCode_codes hl)
+      have hsi1 : SI (top :: rest) w1 := ⟨hsi.sok, hsi.gas, hsi.codes.eq (mf.answerCodes _ _ _ _ _ hans)⟩
       exact tot3_afterStep mf henv (h.step hp) hsi1 (hk resp (answer_ok hans)) (hk2 resp hresp)
         (fun r out s' e => mf.outB _ _ _ _ _ hti (Or.inr ⟨op, k, resp, heq, rfl⟩) e)
         (fun a s' e => mf.inB _ _ _ _ hti (Or.inr ⟨op, k, resp, heq, rfl⟩) e) hlen'
